@@ -180,7 +180,7 @@ def check(args):
         items = sorted(pending[key], key=lambda it: len(canon(it[0])))
         case, viol, seed, idx = items[0]
         t1 = time.time()
-        if n_unknown < 6:
+        if n_unknown < getattr(m, "SHRINK_MAX_KEYS", 6):
             small, used = shrink.shrink(m, case, key, runner,
                                         max_evals=getattr(m, "SHRINK_EVALS", 600),
                                         wall=getattr(m, "SHRINK_WALL", 90))
